@@ -120,6 +120,10 @@ func neg(v *big.Int) *big.Int { return new(big.Int).Neg(v) }
 // observe runs every oracle on one transaction outcome. Violations are keyed by
 // the property they refute; the calling monitor keeps only its own.
 func (e *vestEnv) observe(c *fw.Case, o *txOutcome) {
+	for _, g := range e.signBytesGapsFound {
+		c.ViolateD("C09/sign-bytes-do-not-cover-field", map[string]string{"field": g}, "the bytes signed in amino-JSON sign mode do not change with field %s: a signature for one message is valid for another", g)
+	}
+	e.signBytesGapsFound = nil
 	op := o.op
 	ok := o.res.Code == 0
 	// ---- generic ----
